@@ -129,10 +129,11 @@ FinAcked(t) == ~t.finp /\ t.nxt = t.una
 R(t, res) == [t |-> t, res |-> res]          \* res = "Go": continue with the next step
 
 \* ack_established_processing
+\* (since the F22 repair a duplicate acknowledgment, SEG.ACK = SND.UNA, still takes part in the window update)
 AckEstab(t, sg) ==
-  IF sg.ack <= t.una THEN R(t, "Go")
+  IF sg.ack < t.una THEN R(t, "Go")
   ELSE IF sg.ack > t.nxt THEN R(Enqueue(t, AckSeg(t)), "InvalidAck")
-  ELSE LET t1 == RemoveAcked([t EXCEPT !.una = sg.ack])
+  ELSE LET t1 == IF sg.ack # t.una THEN RemoveAcked([t EXCEPT !.una = sg.ack]) ELSE t
            upd == t.wl1 < sg.seq \/ (t.wl1 = sg.seq /\ t.wl2 <= sg.ack)
        IN R(IF upd THEN [t1 EXCEPT !.wnd = sg.wnd, !.wl1 = sg.seq, !.wl2 = sg.ack] ELSE t1, "Go")
 
